@@ -1,6 +1,7 @@
 import NetVerif.Model.AckState
 import NetVerif.Gen.C25
 import NetVerif.Proofs.C24
+import NetVerif.Proofs.C26
 /-!
 C25 — QUIC acknowledges only received packets and never processes one twice.
 
@@ -514,6 +515,130 @@ theorem ack_frame_only_received {h : Hist} (hr : Reachable h) (delay : Int) (ava
     rintro x ⟨r, hr', hx⟩
     have := seen_subset_received hr x ⟨r, h2 r hr', hx⟩
     exact ⟨this.2, this.1⟩
+
+/-! ## Part 2 — ACK frames from the peer: `lossState.receiveAckRange` (model `Model/LossState.lean`) -/
+
+section AckRange
+open NetVerif.Model.LossState NetVerif.Proofs.C26
+
+/-- On a list of consecutive packet numbers, the ACK-range walk reports a violation exactly when
+the (clamped) range `[lo, hi)` contains a packet recorded as never sent. -/
+theorem ackWalk_violation_iff (lo hi : Int) (ps : List Pkt) : ∀ (n : Int) (cc : CC) (ma : Int), Consec n ps →
+    ((ackWalk lo hi cc ma ps).violation = true ↔ ∃ p ∈ ps, p.state = .unsent ∧ lo ≤ p.num ∧ p.num < hi) := by
+  induction ps with
+  | nil => intro n cc ma _; simp [ackWalk]
+  | cons p rest ih =>
+    intro n cc ma hc
+    obtain ⟨hn, hc'⟩ := hc
+    have hrest : ∀ q ∈ rest, p.num < q.num := fun q hq => by have := (consec_mem hc' hq).1; omega
+    unfold ackWalk
+    split
+    · rename_i h1
+      simp only
+      rw [ih (n + 1) cc ma hc']
+      constructor
+      · rintro ⟨q, hq, h⟩; exact ⟨q, List.mem_cons_of_mem _ hq, h⟩
+      · rintro ⟨q, hq, h2, h3, h4⟩
+        rcases List.mem_cons.1 hq with rfl | hq
+        · omega
+        · exact ⟨q, hq, h2, h3, h4⟩
+    · rename_i h1
+      split
+      · rename_i h2
+        simp only [Bool.false_eq_true, false_iff]
+        rintro ⟨q, hq, _, _, h5⟩
+        rcases List.mem_cons.1 hq with rfl | hq
+        · omega
+        · have := hrest q hq; omega
+      · rename_i h2
+        split
+        · rename_i h3
+          simp only [true_iff]
+          exact ⟨p, List.mem_cons_self, h3, by omega, by omega⟩
+        · rename_i h3
+          have step : ∀ (cc' : CC) (ma' : Int),
+              ((ackWalk lo hi cc' ma' rest).violation = true ↔ ∃ q ∈ p :: rest, q.state = .unsent ∧ lo ≤ q.num ∧ q.num < hi) := by
+            intro cc' ma'
+            rw [ih (n + 1) cc' ma' hc']
+            constructor
+            · rintro ⟨q, hq, h⟩; exact ⟨q, List.mem_cons_of_mem _ hq, h⟩
+            · rintro ⟨q, hq, h4, h5, h6⟩
+              rcases List.mem_cons.1 hq with rfl | hq
+              · exact absurd h4 h3
+              · exact ⟨q, hq, h4, h5, h6⟩
+          split
+          · exact step cc ma
+          · exact step _ _
+
+/-- **`receiveAckRange` returns PROTOCOL_VIOLATION iff the range reaches beyond every number used
+so far (`end > nextNum`) or — after clamping its start to the oldest tracked packet — covers a
+packet number recorded as skipped (`Unsent`).** -/
+theorem receiveAckRange_violation_iff (l : Loss) (sp : Nat) (a b : Int)
+    (hc : Consec (l.space sp).start (l.space sp).pkts) :
+    (l.receiveAckRange sp a b).2.2 = true ↔
+      (b > (l.space sp).nextNum ∨
+       ∃ p ∈ (l.space sp).pkts, p.state = .unsent ∧ max a (l.space sp).start ≤ p.num ∧ p.num < b) := by
+  unfold Loss.receiveAckRange
+  simp only
+  have hst : (if a < (l.space sp).start then (l.space sp).start else a) = max a (l.space sp).start := by
+    split <;> omega
+  rw [hst]
+  by_cases h1 : b > (l.space sp).nextNum
+  · simp [h1]
+  · by_cases h2 : max a (l.space sp).start ≥ b
+    · simp only [h1, h2, if_true, if_false, Bool.false_eq_true, false_or, false_iff]
+      rintro ⟨p, _, _, h3, h4⟩; omega
+    · simp only [h1, h2, if_false, false_or]
+      exact ackWalk_violation_iff _ _ _ _ _ _ hc
+
+/-- The literal reading of the third clause of C25, over histories with the ghost record of
+skipped numbers: "an ACK range is rejected iff it acknowledges a never-sent number or a skipped
+number". -/
+def AckViolationStatement : Prop :=
+  ∀ (mds : Int) (ops : List C26.Op) (sp : Nat) (a b : Int), (∀ o ∈ ops, o.SpaceOK) → sp < 3 → 0 ≤ a → a ≤ b →
+    (((grun (Loss.init mds) {} ops).1.receiveAckRange sp a b).2.2 = true ↔
+      (b > ((grun (Loss.init mds) {} ops).1.space sp).nextNum ∨
+       ∃ k ∈ (grun (Loss.init mds) {} ops).2.k sp, a ≤ k ∧ k < b))
+
+/-- The excluded region: the skipped number's record was already dropped from the sent list
+(`clean()` removes every non-`Sent` entry from the head, `Unsent` ones included). -/
+def Forgotten (s : Space) (k : Int) : Prop := k < s.start
+
+/-- **holds_partial**: with skipped numbers whose record is still tracked, the clause holds for
+every history. -/
+theorem ack_violation_holds_partial (mds : Int) (ops : List C26.Op) (sp : Nat) (a b : Int)
+    (hv : ∀ o ∈ ops, o.SpaceOK) (hsp : sp < 3) :
+    (((grun (Loss.init mds) {} ops).1.receiveAckRange sp a b).2.2 = true ↔
+      (b > ((grun (Loss.init mds) {} ops).1.space sp).nextNum ∨
+       ∃ k ∈ (grun (Loss.init mds) {} ops).2.k sp,
+         ¬ Forgotten ((grun (Loss.init mds) {} ops).1.space sp) k ∧ a ≤ k ∧ k < b)) := by
+  have hi := finv_grun ops _ _ hv (finv_init mds) sp hsp
+  generalize (grun (Loss.init mds) {} ops).1 = l at hi ⊢
+  generalize (grun (Loss.init mds) {} ops).2 = g at hi ⊢
+  rw [receiveAckRange_violation_iff l sp a b hi.consec]
+  unfold Forgotten
+  constructor
+  · rintro (h | ⟨p, hp, hu, h1, h2⟩)
+    · exact Or.inl h
+    · exact Or.inr ⟨p.num, hi.unsent_k p hp hu, by omega, by omega, h2⟩
+  · rintro (h | ⟨k, hk, h0, h1, h2⟩)
+    · exact Or.inl h
+    · rcases hi.k_unsent k hk with ⟨p, hp, hpn, hpu⟩ | hlt
+      · exact Or.inr ⟨p, hp, hpu, by omega, by omega⟩
+      · omega
+
+/-- **full_false**: the literal statement fails on the code as it is. Send 0, skip 1, send 2;
+ACK [0,1) (packet 0 acked; `receiveAckEnd` cleans 0 *and the skip record 1* off the list);
+a later ACK [0,3), which covers the skipped number 1, is accepted. -/
+theorem ack_violation_full_false : ¬ AckViolationStatement := by
+  intro h
+  have := h 1200
+    [C26.Op.send 0 100 true true 0, C26.Op.skip 0 0, C26.Op.send 0 100 true true 0, C26.Op.ackRange 0 0 1, C26.Op.ackEnd 0 1 1 none 1]
+    0 0 3 (by intro o ho; simp at ho; rcases ho with rfl | rfl | rfl | rfl | rfl <;> simp [C26.Op.SpaceOK]) (by omega) (by omega) (by omega)
+  revert this
+  decide
+
+end AckRange
 
 /-! ## T-tie -/
 
